@@ -29,7 +29,7 @@ func (h *Hist) genConfigs() {
 	if focus == "churn" || focus == "down" {
 		h.globalDry = false
 	}
-	if focus == "fleet" {
+	if focus == "fleet" && r.chance(70) {
 		ng = 1 // fleet scale-ups take seconds of real time: keep taint stamps of other groups out of the same scan
 	}
 	useDefault := ng > 1 && r.chance(40)
@@ -116,7 +116,7 @@ func (h *Hist) genConfigs() {
 				asgMin--
 			}
 		}
-		g := &SimASG{Name: o.CloudProviderGroupName, Min: asgMin, Max: asgMax, VpcZones: "subnet-a,subnet-b", Tagged: r.chance(30)}
+		g := &SimASG{Name: o.CloudProviderGroupName, Min: asgMin, Max: asgMax, VpcZones: r.pick("subnet-a,subnet-b", fmt.Sprintf("subnet-%da,subnet-%db", i, i), fmt.Sprintf("subnet-%d", i)), Tagged: r.chance(30)}
 		h.aws.asgs[g.Name] = g
 		effMin, effMax := minN, maxN
 		if minN == 0 && maxN == 0 {
@@ -457,7 +457,7 @@ func (h *Hist) randomEvent() string {
 		for i := 0; i < k; i++ {
 			n := pickNode()
 			if !n.hasTaint(forceKey) {
-				n.Taints = append(n.Taints, WTaint{Key: forceKey, Effect: "NoSchedule", Raw: "x"})
+				n.Taints = append(n.Taints, WTaint{Key: forceKey, Effect: forceEffect(h.r), Raw: "x"})
 			}
 			marked[n.Name] = true
 		}
@@ -491,6 +491,11 @@ func (h *Hist) randomEvent() string {
 	}
 	if focus == "rotate" && r.chance(70) {
 		ev = r.pickI(0, 1, 2, 3, 21, 10, 13) // mostly load changes across all bands, time, deliveries: keep the group at its minimum
+	}
+	if r.chance(2) && len(h.api) > 0 {
+		// every Node object of the cluster is gone (the instances are still in their cloud groups): all listings are empty
+		h.api = nil
+		return "cluster-empties"
 	}
 	if r.chance(3) && len(nodes) > 0 {
 		// every node of the group is cordoned (maintenance): nothing of theirs may be counted
@@ -556,7 +561,7 @@ func (h *Hist) randomEvent() string {
 		}
 	case 5:
 		if n := pickNode(); n != nil && !n.hasTaint(forceKey) {
-			n.Taints = append(n.Taints, WTaint{Key: forceKey, Effect: "NoSchedule", Raw: "x"})
+			n.Taints = append(n.Taints, WTaint{Key: forceKey, Effect: forceEffect(h.r), Raw: "x"})
 			return "force-taint"
 		}
 	case 6:
@@ -662,7 +667,7 @@ func (h *Hist) randomEvent() string {
 			if r.chance(60) {
 				n.Taints = append(n.Taints, WTaint{Key: escKey, Effect: "NoSchedule", Rel: true, Ago: 3 * hard})
 			} else {
-				n.Taints = append(n.Taints, WTaint{Key: forceKey, Effect: "NoSchedule", Raw: "x"})
+				n.Taints = append(n.Taints, WTaint{Key: forceKey, Effect: forceEffect(h.r), Raw: "x"})
 			}
 			return "detached-cordoned-node"
 		case 0: // a node the ASG does not know
@@ -691,7 +696,7 @@ func (h *Hist) randomEvent() string {
 			og.Instances = append(og.Instances, SimInst{instIDOfProviderID(n.ProviderID), "az-a"})
 			n.ProviderID = providerID("az-a", instIDOfProviderID(n.ProviderID))
 			if r.chance(60) {
-				n.Taints = append(n.Taints, WTaint{Key: forceKey, Effect: "NoSchedule", Raw: "x"})
+				n.Taints = append(n.Taints, WTaint{Key: forceKey, Effect: forceEffect(h.r), Raw: "x"})
 			} else {
 				n.Taints = append(n.Taints, WTaint{Key: escKey, Effect: "NoSchedule", Rel: true, Ago: 3 * hard})
 			}
@@ -838,3 +843,8 @@ func (h *Hist) runHistory(scans int) (bool, string) {
 
 var slowOK = false
 var focus = ""
+
+// forceEffect: the force-removal taint is put on by operators: any effect, or none
+func forceEffect(r *Rng) string {
+	return r.pick("NoSchedule", "NoSchedule", "NoExecute", "PreferNoSchedule", "")
+}
